@@ -548,6 +548,51 @@ static void suite_dialog(Rng &rng) {
   emitI("dialog", "runs", S(runs));
 }
 
+// ---- the dialogue against its Lean model (Model/Dialog.lean, command `dlg`): the real get_v_mod1() runs in a forked child whose standard
+// input is the generated script; what it hands to main (mode, input file, key, modes, seed string, output name) is compared with the model.
+// The generator stays inside the fragment the model covers (retries after unknown files / invalid key texts / invalid mode numbers, blanks
+// and tabs before tokens, upper-case answers) — outside it the real code reads uninitialised variables or never returns.
+static void suite_dlgparse(Rng &rng) {
+  mkdir("sub", 0755); write_file("dlg.txt", rng.buf(40)); write_file("sub/in.bin", rng.buf(20));
+  long cases = 0; static const char *wsv[] = {"\n", " ", "\t", "\n\n", " \n", "\r\n"};
+  auto ws = [&]() { return std::string(wsv[rng.below(6)]); };
+  auto valid_key = [&](bytes &raw) { raw = rng.buf(16); return b64_text(raw.data(), 16); };
+  static const char *badkeys[] = {"short", "AAAAAAAAAAAAAAAAAAAAAAAA", "AAAAAAAAAAAAAAAAAAAAAAA=", "ABEiM0RVZneImaq7zN3u/ww==", "====", "ABEi*0RVZneImaq7zN3u/w=="};
+  static const char *badmodes[] = {"7", "-1", "abc", "9 9", "5x", "-", "99", "+8", "x3"};
+  int total = tier_thorough() ? 1500 : 260;
+  for (int it = 0; it < total; it++) {
+    char mode = "eEdDv"[rng.below(5)]; std::string in(1, mode); in += (rng.below(3) ? "\n" : (rng.below(2) ? " " : ""));
+    for (int k = rng.below(3); k > 0; k--) in += std::string(rng.below(2) ? "nope.txt" : "sub/none") + ws();
+    std::string file = rng.below(2) ? "dlg.txt" : "sub/in.bin"; in += (rng.below(4) ? "" : " ") + file + "\n"; for (int k = rng.below(3); k > 0; k--) in += "\n";
+    bool is_e = mode == 'e' || mode == 'E', is_d = mode == 'd' || mode == 'D'; bytes raw; bool random_key = false; std::string outname;
+    auto key_part = [&]() { for (int k = rng.below(3); k > 0; k--) in += std::string(badkeys[rng.below(6)]) + ws(); in += valid_key(raw) + ws(); };
+    auto mode_part = [&](int maxv) { for (int k = rng.below(3); k > 0; k--) in += std::string(badmodes[rng.below(9)]) + "\n"; int v = rng.below(maxv + 1);
+      static const char *pre[] = {"", " ", "+", "0", "\t"}; in += std::string(pre[rng.below(5)]) + S(v) + (rng.below(4) ? "\n" : " trailing words\n"); return v; };
+    int c = -1, h = -1; std::string seed;
+    if (is_e) { char flag = "nyNYx"[rng.below(5)]; in += flag; in += ws(); random_key = flag == 'y' || flag == 'Y'; if (!random_key) key_part();
+      c = mode_part(4); h = mode_part(2);
+      if (c != 0) { static const char *al = "abcXYZ019!#%+/=_-.,;:"; seed = std::string(1 + rng.below(it % 7 == 0 ? 250 : 20), 'x'); for (auto &ch : seed) ch = al[rng.below(21)]; in += (rng.below(3) ? "" : "  ") + seed + (rng.below(3) ? "\n" : " more\n"); } }
+    else if (is_d) { char flag = "nyNYq"[rng.below(5)]; in += flag; in += ws(); if (flag == 'y' || flag == 'Y') { outname = rng.below(2) ? "dlg.newname" : "sub/restored.bin"; in += outname + ws(); } key_part(); }
+    else key_part();
+    write_file("dlg.in", bytes(in.begin(), in.end()));
+    trace_case("dlgparse", "dialogue input " + hexs(in));
+    int pp[2]; if (pipe(pp) != 0) abort(); fflush(g_proto);
+    pid_t pid = fork();
+    if (pid == 0) { close(pp[0]); int fd = open("dlg.in", O_RDONLY); dup2(fd, 0); close(fd); alarm(10);
+      vpak_t *p = (vpak_t *)get_v_mod1();
+      std::string r = S((long)(unsigned char)p->mode) + " " + (p->fp ? hexs(fdpath(p->fp)) : std::string("null")) + " " + (random_key ? std::string("*") : (p->key ? hex(p->key, 16) : std::string("null"))) + " " +
+        S((long)p->ctype) + " " + S((long)p->htype) + " " + ((is_e && p->ctype != 0) ? hexs(std::string((const char *)p->r_buf)) : std::string("?")) + " " + (p->out ? hexs(fdpath(p->out)) : std::string("null")) + "\n";
+      ssize_t w = write(pp[1], r.data(), r.size()); (void)w; _exit(0); }
+    close(pp[1]); std::string res; { char buf[4096]; ssize_t n; while ((n = read(pp[0], buf, sizeof buf)) > 0) res.append(buf, n); } close(pp[0]);
+    int st = 0; waitpid(pid, &st, 0); cases++;
+    for (const char *f : {"dlg.txt.wenc", "in.bin.wenc", "dlg.txt.wdec", "in.bin.wdec", "dlg.newname", "sub/restored.bin"}) unlink(f);
+    if (!WIFEXITED(st) || WEXITSTATUS(st) != 0 || res.empty()) { emitA("dlgparse", "C18", "the dialogue crashed or did not return (wait status " + S(st) + ") on the input " + hexs(in)); continue; }
+    res.pop_back();
+    emitM("dlgparse", "dlg " + hexs(in) + " " + hexs("dlg.txt") + " " + hexs("sub/in.bin"), res);
+  }
+  emitI("dlgparse", "dialogues", S(cases));
+}
+
 // ---- C06 at the command line: the key the user TYPES. Every key text that denotes other 16 bytes than the right key must be refused by -v
 // and -d: all 128 one-bit neighbours and all neighbours that differ in one base64 symbol by one alphabet position ('/' for '+', 'a' for 'Z', ...)
 static void suite_keywrong(Rng &rng) {
@@ -596,6 +641,7 @@ int main(int argc, char **argv) {
   if (which == "intact") suite_intact(rng);
   if (which == "keyargs") suite_keyargs(rng);
   if (which == "dialog") suite_dialog(rng);
+  if (which == "dlgparse") suite_dlgparse(rng);
   if (which == "keywrong") suite_keywrong(rng);
   fflush(g_proto);
   if (chdir("/") != 0) return 2;
